@@ -779,6 +779,25 @@ fn replay_flags_variant(case: &Value, rep: &mut Report, rng: &mut Rng, kinds: &[
             return;
         }
     };
+    // the same with a validation set of exactly ONE sample (frozen weights: the twin stays valid), before the main run
+    if hasval && e >= 1 {
+        rep.checks += 1;
+        let one = guarded(|| {
+            let (xr, yr) = (refs(&data.inputs), refs(&data.targets));
+            let (vx1, vy1) = (vec![&vdata.inputs[0]], vec![&vdata.targets[0]]);
+            let (_, vl, va) = a.learn(&xr, &yr, Some((&vx1, &vy1, tol as i32)), b, 1, None);
+            (vl, va, twin.validate(&vx1, &vy1, 1e-6))
+        });
+        match one {
+            Err(msg) => rep.mismatch("C09", "learn_panicked", &id, json!({"panic": msg, "validation_samples": 1}), case),
+            Ok((vl, va, reference)) => {
+                if vl.len() != 1 || vl[0].to_bits() != reference.0.to_bits() || va[0].to_bits() != reference.1.to_bits() {
+                    rep.mismatch("C09", "validation_metric_during_training_uses_dropout", &id,
+                                 json!({"validation_samples": 1, "reported": [vl, va], "dropout_free": [reference.0, reference.1]}), case);
+                }
+            }
+        }
+    }
     rep.checks += 1;
     let res = guarded(|| {
         let (xr, yr, vx, vy) = (refs(&data.inputs), refs(&data.targets), refs(&vdata.inputs), refs(&vdata.targets));
@@ -1201,6 +1220,11 @@ pub fn thread_jobs() -> Vec<Value> {
                "layers": [{"kind": "conv", "filters": 3, "kernel": [3, 3], "stride": [1, 1], "padding": [1, 1], "act": "tanh"},
                           {"kind": "conv", "filters": 8, "kernel": [3, 3], "stride": [1, 1], "padding": [1, 1], "act": "sigmoid"}],
                "objective": {"kind": "mse"}, "optimizer": {"kind": "adam", "lr": 0.01}}),
+        // a soft-max over 24 classes (its normaliser is a sum of 24 exponentials per sample)
+        json!({"name": "mlp-wide-softmax-adamw", "ints": false, "input": [6], "out": 24, "onehot": true,
+               "layers": [{"kind": "dense", "out": 10, "act": "tanh", "bias": true},
+                          {"kind": "dense", "out": 24, "act": "softmax", "bias": true}],
+               "objective": {"kind": "ce"}, "optimizer": {"kind": "adamw", "lr": 0.01, "decay": 0.01}}),
         // six filters in a convolution that is not the first layer (its input gradient sums over the filters)
         json!({"name": "cnn-six-filters-adam", "ints": false, "input": [1, 5, 5], "out": 2,
                "layers": [{"kind": "conv", "filters": 2, "kernel": [2, 2], "stride": [1, 1], "padding": [0, 0], "act": "tanh"},
@@ -1492,6 +1516,24 @@ pub fn replay_validate(case: &Value, rep: &mut Report, rng: &mut Rng) {
                     if acc.to_bits() != want.to_bits() {
                         rep.mismatch("C12", "accuracy_at_an_extreme_tolerance", &id, json!({"tolerance": format!("{:e}", t_ext), "expected": want, "observed": acc}), case);
                     }
+                }
+            }
+        }
+    }
+
+    // Near misses at a tight tolerance (the 1e-6 `learn` itself passes): targets 4e-6 away from the prediction in every
+    // second component are NOT within 1e-6, however equal the tensors look at 1e-5
+    if !softmax {
+        let ys2: Vec<Tensor> = xs.iter().map(|x| Tensor::single(flat(x).iter().enumerate().map(|(j, p)| if j % 2 == 0 { p + 4.0e-6 } else { *p }).collect())).collect();
+        let yr2 = refs(&ys2);
+        let per_sample = (len / 2) as f32 / len as f32;     // the odd components hit exactly
+        let want = (0..n).map(|_| per_sample).sum::<f32>() / n as f32;
+        rep.checks += 1;
+        match guarded(|| net.validate(&xr, &yr2, 1.0e-6)) {
+            Err(msg) => rep.mismatch("C12", "validate_or_predict_batch_panicked", &id, json!({"panic": msg, "targets": "near misses"}), case),
+            Ok((_, acc)) => {
+                if acc.to_bits() != want.to_bits() {
+                    rep.mismatch("C12", "accuracy_counts_near_misses_at_a_tight_tolerance", &id, json!({"expected": want, "observed": acc, "tolerance": "1e-6", "offset": "4e-6"}), case);
                 }
             }
         }
